@@ -41,6 +41,17 @@ func honestRun(sc scen.Scenario, seed uint64) (*scen.Built, []rec, *proto.Result
 
 func ids(xs []ID) []uint64 { return ad.IDsU(xs) }
 
+// lastIndex returns the last array index in a leaf path (-1 if none).
+func lastIndex(path string) int {
+	i := strings.LastIndex(path, "[")
+	if i < 0 {
+		return -1
+	}
+	n := -1
+	fmt.Sscanf(path[i+1:], "%d", &n)
+	return n
+}
+
 func rejectsJ(rs []proto.Reject) []any {
 	out := []any{}
 	for _, r := range rs {
@@ -308,7 +319,7 @@ func main() {
 					}
 				}
 				w.Emit(map[string]any{"a": "tamper", "case": caseNo, "k": fmt.Sprintf("%s:r%d%s:%s:%s", sc.Name, m.round, m.kind, c.leaf, c.op), "proto": sc.Name, "round": m.round, "kind": m.kind,
-					"from": uint64(m.from), "to": uint64(m.to), "leaf": c.leaf, "path": c.path, "op": c.op, "changed": changed,
+					"from": uint64(m.from), "to": uint64(m.to), "leaf": c.leaf, "path": c.path, "idx": lastIndex(c.path), "op": c.op, "changed": changed,
 					"rejects": rejectsJ(res.Rejects), "completed": ids(comp), "out": bt.Outputs(comp), "stop": res.StopRound,
 					"parties": ids(all), "senderIsPrev": bt.IsPrev == nil || bt.IsPrev[m.from]})
 			}
@@ -376,7 +387,7 @@ func main() {
 					}
 				}
 				w.Emit(map[string]any{"a": "tamper", "case": caseNo, "k": fmt.Sprintf("%s:r%d:strategy:redeal", sc.Name, stg.round), "proto": sc.Name, "round": stg.round, "kind": "b",
-					"from": uint64(dev), "to": 0, "leaf": "/strategy", "path": "/strategy", "op": "redeal", "changed": touched,
+					"from": uint64(dev), "to": 0, "leaf": "/strategy", "path": "/strategy", "idx": -1, "op": "redeal", "changed": touched,
 					"rejects": rejectsJ(res.Rejects), "completed": ids(comp), "out": bt.Outputs(comp), "stop": res.StopRound,
 					"parties": ids(all), "senderIsPrev": bt.IsPrev == nil || bt.IsPrev[dev]})
 			}
